@@ -191,8 +191,10 @@ def judge(idx, seed):
                     lab0 = str(c.asymmetric_unit.labels[0])
                     text += ("\nloop_\n_atom_site_aniso_label\n_atom_site_aniso_U_11\n_atom_site_aniso_U_22\n_atom_site_aniso_U_33\n"
                              f"{lab0} 0.0123 0.0234 0.0345\n#END\n")
+                    # ... and with items whose value is the empty string / a non-ASCII name, as deposited files carry them
+                    text = text.replace("_cell_length_a", "_publ_author_name 'M\u00fcller, J.'\n_chemical_name_common ''\n_cell_length_a", 1)
                     pa = os.path.join(tmp, "aniso.cif")
-                    open(pa, "w").write(text)
+                    open(pa, "w", encoding="utf-8").write(text)
                     ca = Crystal.load(pa)
                     r = compare(c, ca, "cif")
                     if r:
